@@ -17,7 +17,8 @@ RULE = ("Statistics cases: per-SSRC arrival histories (200-3000 packets, or spar
         "RTCRtpReceiver._run_rtcp in virtual time behind a stub transport and compare every RR seen on the wire with the "
         "model; the RTCP task must survive. Distinct/non-trivial = histories crossing a sequence cycle or the timestamp wrap, "
         "or containing loss and duplication."
-        ' In the report path getStats() is called between reports (same figures as the model, next report undisturbed); the wall clock of the statistics histories starts at 0, at a present-day epoch or shortly before clock x rate crosses a multiple of 2^32.')
+        ' In the report path getStats() is called between reports (same figures as the model, next report undisturbed); the wall clock of the statistics histories starts at 0, at a present-day epoch or shortly before clock x rate crosses a multiple of 2^32.'
+        ' Half of the report-path runs negotiate RTX and feed retransmissions on the RTX stream: own report block with own figures, primary figures unmoved.')
 ASSUMPTIONS = [
     "arrival clock = time.time() of the receiver module, replaced by a scripted clock; forward jumps are bounded by 4 hours (a jump of several days would exceed 32 bits of jitter in any implementation of the recurrence)",
     "jitter is compared on the implementation's reading of A.8: the previous in-order packet is the reference for a packet that starts a new timestamp",
